@@ -2,7 +2,7 @@
 import re
 import collections
 
-from checks.common import UdpCheck, Monitor, swarm_cfg
+from checks.common import UdpCheck, Monitor, swarm_cfg, PoolGuard
 from world.attacker import Attacker
 from world.udpworld import ConnectionStatus, PacketType, client_addr, sig
 
@@ -124,7 +124,7 @@ class C10(UdpCheck):
 
     def monitors(self, case):
         self.mon = LifecycleMonitor()
-        return [self.mon]
+        return [self.mon, PoolGuard()]
 
     def prepare(self, w, case):
         Attacker(w)
